@@ -423,7 +423,10 @@ def regenerate(repo, lean_dir, names=None):
 if __name__ == '__main__':
     repo = os.environ.get('PYPHYSIM_REPO', '/repo')
     here = os.path.dirname(os.path.abspath(__file__))
-    r = regenerate(repo, os.path.join(here, '..', 'lean'), sys.argv[1:] or None)
+    # VERIF_LEAN_OUT=<dir>: write <dir>/PyPhysim/Generated/*.lean instead of the framework's own lean tree
+    # (tools/translator_regress.py translates patched checkouts without touching the committed files)
+    out_dir = os.environ.get('VERIF_LEAN_OUT') or os.path.join(here, '..', 'lean')
+    r = regenerate(repo, out_dir, sys.argv[1:] or None)
     for k, v in r.items():
         print(k, v)
     sys.exit(1 if any(str(v).startswith('error') for v in r.values()) else 0)
